@@ -165,10 +165,33 @@ def _sgx_stamp():
     return file_hash(os.path.join(VERIF, 'sgx', 'sgx.cc'))
 
 
-def cache_paths(unit, args):
-    k = hashlib.sha256((unit + '\0' + '\0'.join(args) + '\0' + _sgx_stamp() + '\0' + _overlay_sig).encode()).hexdigest()[:24]
+def _key_paths(unit, args, sig):
+    k = hashlib.sha256((unit + '\0' + '\0'.join(args) + '\0' + _sgx_stamp() + '\0' + sig).encode()).hexdigest()[:24]
     base = os.path.join(CACHE, k)
     return base + '.ir', base + '.deps'
+
+
+_affected_memo = {}
+
+
+def cache_paths(unit, args):
+    """cache entry of a unit.  Under a self-test overlay only the units that (in the unmodified tree) depend on an
+    overlaid file get a separate entry; the others share the entry of the unmodified tree."""
+    if not _overlay:
+        return _key_paths(unit, args, '')
+    mk = (unit, _overlay_sig)
+    aff = _affected_memo.get(mk)
+    if aff is None:
+        aff = True
+        if unit not in _overlay:
+            _, depp = _key_paths(unit, args, '')
+            try:
+                deps = json.load(open(depp))
+                aff = any(k in deps for k in _overlay)
+            except Exception:
+                aff = True
+        _affected_memo[mk] = aff
+    return _key_paths(unit, args, _overlay_sig if aff else '')
 
 
 def is_fresh(unit, args):
@@ -248,6 +271,27 @@ def refresh(units, jobs=16, verbose=False):
     if errs:
         raise AnalysisBroken('sgx failed on %d unit(s); first: %s\n%s' % (len(errs), errs[0][0], errs[0][1]))
     return len(todo)
+
+
+def units_including(headers, refresh_first=True):
+    """library units whose translation unit includes one of `headers` (repo-relative), from the recorded dependency lists
+    of up-to-date IR files.  Sound pre-filter for who-may-write rules on members declared in those headers."""
+    db = compdb()
+    from .core import EXCLUDED_UNITS
+    units = [u for u in sorted(db) if u not in EXCLUDED_UNITS]
+    if refresh_first:
+        refresh(units)
+    hs = set(os.path.join(REPO, h) for h in headers)
+    res = []
+    for u in units:
+        _, depp = cache_paths(u, db[u])
+        try:
+            deps = json.load(open(depp))
+        except Exception:
+            raise AnalysisBroken('no dependency record for ' + u)
+        if hs & set(deps):
+            res.append(u)
+    return res
 
 
 def all_units():
